@@ -9,9 +9,13 @@ B. tie: the model of the CURRENT policy vs the hooked binary:
       model's marks for the same layout / block size / container;
    B2 free scheduling (and planned consumer delays): model(no lag) <= observed <= model(lag cap+2).
    CHANNEL_CAPACITY is scraped from src/bin/s4.rs on every run; `wfb` is evaluated on every case.
+   B4 windowed runs (plain file, -a placed at 10 %, 50 %, 90 % of the file): the model of
+      Model/RetainSearch.v (block-zero analysis, binary search probes with their LRU caches, stage-3
+      loop) must EQUAL the marks when the consumer keeps up, and bracket them otherwise.
 C. search, spec = the property: the same generated log grown x4 per step; a mark that keeps growing
-   (linear-growth test on the three largest sizes) is a failing input.  Inside the two known classes
-   -> KNOWN-FINDING, outside -> VIOLATION.
+   (linear-growth test on the three largest sizes) is a failing input.  Inside the known classes
+   -> KNOWN-FINDING, outside -> VIOLATION.  The same with a window (-a at 10 / 50 / 90 %): the marks
+   may grow with the logarithm of the size (equal steps per x4), never linearly.
 """
 import hashlib, json, os, re, shutil, subprocess, time
 from concurrent.futures import ThreadPoolExecutor, ProcessPoolExecutor
@@ -29,6 +33,19 @@ def scrape_cap():
     src = open(os.path.join(vlib.REPO, "src", "bin", "s4.rs")).read()
     m = re.search(r"const\s+CHANNEL_CAPACITY\s*:\s*usize\s*=\s*(\d+)\s*;", src)
     return int(m.group(1)) if m else None
+
+
+def scrape_window_constants():
+    """the constants Model/RetainSearch.v transcribes: (FIND_SYSLINE_LRU_CACHE_SZ, FIND_LINE_LRU_CACHE_SZ, SYSLOG_SZ_MAX)"""
+    def grab(rel, rx):
+        m = re.search(rx, open(os.path.join(vlib.REPO, *rel)).read())
+        return int(m.group(1)) if m else None
+    return (grab(("src", "readers", "syslinereader.rs"), r"const\s+FIND_SYSLINE_LRU_CACHE_SZ\s*:\s*usize\s*=\s*(\d+)\s*;"),
+            grab(("src", "readers", "linereader.rs"), r"const\s+FIND_LINE_LRU_CACHE_SZ\s*:\s*usize\s*=\s*(\d+)\s*;"),
+            grab(("src", "common.rs"), r"pub\s+const\s+SYSLOG_SZ_MAX\s*:\s*usize\s*=\s*(\d+)\s*;"))
+
+
+WINDOW_CONSTANTS = (4, 8, 8096)     # SLRU_CAP, LLRU_CAP, BZ_SMALL of Model/RetainSearch.v (and c17_util.WindowSim)
 
 
 # ------------------------------------------------------------------ generators
@@ -89,8 +106,9 @@ def case_id(case):
 
 # ------------------------------------------------------------------ running the binary
 
-def run_bin(root, case, mode, idx, slow_us=300, plan=None):
-    """mode: 'lagfree' (H1 slow on every send) | 'free' | 'plan' (given S4_VERIF_PLAN).  returns summary dict or None"""
+def run_bin(root, case, mode, idx, slow_us=300, plan=None, after=None):
+    """mode: 'lagfree' (H1 slow on every send) | 'free' | 'plan' (given S4_VERIF_PLAN).  after: value of -a.
+    returns summary dict or None"""
     name = "c17f%05d" % idx
     path = os.path.join(root, name + U.EXT[case["container"]])
     lay = layout_of(case)
@@ -104,7 +122,8 @@ def run_bin(root, case, mode, idx, slow_us=300, plan=None):
         env["S4_VERIF_PLAN"] = plan
     t0 = time.time()
     try:
-        pr = subprocess.run([vlib.S4_BIN, "--color", "never", "--summary", "--blocksz", str(case["bs"]), path],
+        pr = subprocess.run([vlib.S4_BIN, "--color", "never", "--summary", "--blocksz", str(case["bs"])] +
+                            (["-a", after] if after else []) + [path],
                             env=env, stdout=subprocess.DEVNULL, stderr=subprocess.PIPE, timeout=900)
         s = U.parse_summary(pr.stderr)
         rc = pr.returncode
@@ -160,6 +179,55 @@ def model_rows(cases, H, workdir):
     return out, ""
 
 
+def model_rows_w(cases, H, workdir):
+    """evaluate Corr.C17.rows_w on windowed cases (each has "t"); returns list of dict per case or None"""
+    hdr = (vlib.COQ_PRINT_HDR + "From Coq Require Import List NArith Bool.\nImport ListNotations.\n"
+           "From S4.Model Require Import Retain.\nFrom S4.Corr Require Import C17.\nOpen Scope N_scope.\n")
+    idx = list(range(len(cases)))
+    idx.sort(key=lambda i: -len(cases[i]["base"]) * cases[i]["mult"])
+    shards = [idx[i::vlib.NCPU] for i in range(min(vlib.NCPU, len(idx)))]
+    texts = []
+    for sh in shards:
+        rows = []
+        for i in sh:
+            c = cases[i]
+            if c.get("avoid_edges"):
+                pre, base, rep = layout_of(c), [], 0
+            else:
+                pre, base, rep = prefix_of(c), c["base"], c["mult"]
+            rows.append("(%s, %s, %d%%nat, %d, %d, %d)" % (coq_layout(pre), coq_layout(base), rep, c["bs"], H, c["t"]))
+        texts.append(hdr + "Definition cases : list wcase := [\n%s\n].\nEval vm_compute in (rows_w cases).\n" % ";\n".join(rows))
+    res = vlib.coq_eval_shards(workdir, texts)
+    out = [None] * len(cases)
+    for sh, (rc, o) in zip(shards, res):
+        pairs = vlib.parse_eval_pairs(o) if rc == 0 else None
+        if pairs is None or len(pairs) != len(sh):
+            return None, o
+        for k, t in enumerate(pairs):
+            out[sh[k]] = dict(messages=t[1], lo=(t[2], t[3], t[4]), hi=(t[5], t[6], t[7]), derr_lo=t[8], derr_hi=t[9],
+                              dlerr_lo=t[10], dlerr_hi=t[11], dok_lo=t[12])
+    return out, ""
+
+
+def _simw_job(a):
+    """the windowed model at every constant consumer lag 1..H: (per-mark minimum, per-mark maximum).
+    Under a window the marks are not monotone in the lag (a release that fails keeps find_line cache
+    entries alive, which evicts older entries sooner, which lets OTHER releases succeed), so the
+    bracket for a free schedule is taken over all lags"""
+    c, H = a
+    lay = layout_of(c)
+    rs = [U.sim_cur_w(lay, c["bs"], lag, c["t"]) for lag in range(1, H + 1)]
+    return tuple(min(r[i] for r in rs) for i in range(3)), tuple(max(r[i] for r in rs) for i in range(3))
+
+
+def w_slack(lay, bs):
+    """what one find_sysline can store (blocks, lines, messages): tolerance of the windowed bracket,
+    because a real schedule is not a constant-lag schedule"""
+    span = max(b - a + 1 for a, b in U.msg_spans(lay, bs))
+    ml = max(z - a + 1 for a, z in U.messages(lay))
+    return (2 * span + 1, ml + 1, 1)
+
+
 def _sim_job(a):
     c, H = a
     if c.get("notation", "iso") == "yearless":
@@ -178,11 +246,30 @@ def grows(vals):
     return b > a + SLACK and c > b + SLACK and (c - b) >= 2 * (b - a)
 
 
+def grows_w(vals, unit):
+    """linear-growth test under a window.  A x4 larger file costs the binary search at most two more
+    iterations (+ the end game), i.e. at most 4 more find_sysline calls, each of which stores at most
+    `unit` entries (1 message / ml + 1 lines / 2 span + 1 blocks): steps up to 4 * unit are the
+    logarithmic term the property allows.  Linear growth: the last step exceeds that allowance and
+    does not slow down."""
+    if len(vals) < 3:
+        return False
+    a, b, c = vals[-3:]
+    return (c - b) > 4 * unit + SLACK and (c - b) >= 2 * (b - a)
+
+
 # ------------------------------------------------------------------ the check
 
 def run(ctx):
     quick = ctx.quick()
     rng = ctx.rng
+    phase = {}
+    tph = [time.time()]
+
+    def mark_phase(name):
+        phase[name] = round(time.time() - tph[0], 1)
+        tph[0] = time.time()
+
     vlib.proof_stage(ctx, PROP_FILE, [], extra_targets=["Corr/C17.vo"])
     ok, log = vlib.build_s4()
     if not ok:
@@ -193,6 +280,10 @@ def run(ctx):
         ctx.obligation_broken("translator", "CHANNEL_CAPACITY not found in src/bin/s4.rs", "")
         cap = 5
     H = cap + 2
+    wc = scrape_window_constants()
+    if wc != WINDOW_CONSTANTS:
+        ctx.obligation_broken("translator", "cache capacities / SYSLOG_SZ_MAX in the source differ from the constants of Model/RetainSearch.v",
+                              json.dumps(dict(source=wc, model=WINDOW_CONSTANTS)))
     root = vlib.scratch_dir("C17")
     containers = ["plain", "gz", "bz2"] + (["lz4"] if U.have_lz4() else [])
     nrun = [0]
@@ -201,6 +292,7 @@ def run(ctx):
         nrun[0] += 1
         return nrun[0]
 
+    mark_phase("proof+build")
     # ---------------------------------------------------------------- B cases
     bcases = []
     nb = 110 if quick else 420
@@ -245,7 +337,7 @@ def run(ctx):
         return ctx.finish()
     for c, m in zip(bcases, model):
         if m["wf"] != 1:
-            ctx.obligation_broken("correspondence", "wfb false on a generated layout (hypothesis of C17_retry_bounded_partial)",
+            ctx.obligation_broken("correspondence", "wfb false on a generated layout (contradicts C17_layout_msgs_wf: every layout is well-formed)",
                                   json.dumps(dict(kind=c["kind"], bs=c["bs"], mult=c["mult"], base=c["base"][:50])))
             break
         lay = layout_of(c)
@@ -342,6 +434,109 @@ def run(ctx):
             ctx.obligation_broken("correspondence", "year-less log: marks vs 'everything is kept' (Model.Retain find_all)",
                                   json.dumps(dict(container=c["container"], bs=c["bs"], impl=got, model=want)))
 
+
+    mark_phase("B1-B3")
+    # ---------------------------------------------------------------- B4: windowed runs (plain, -a)
+    wcases = []
+    wkinds = ["short", "multi", "long", "edgey", "safe", "longline", "aligned"]
+    nw = 10 if quick else 42
+    for i in range(nw):
+        kind = wkinds[i % len(wkinds)]
+        if kind == "safe":
+            bs = rng.choice([4096, 8192, 16384])
+        elif kind == "long":
+            bs = rng.choice([64, 128, 256, 512])
+        elif kind == "longline":
+            bs = rng.choice([256, 1024, 4096])
+        else:
+            bs = rng.choice([64, 128, 256, 512, 1024, 4096])
+        base = gen_base(rng, kind, bs, rng.randrange(60, 300))
+        cw = dict(kind=kind, bs=bs, container="plain", base=base, mult=rng.choice([1, 2, 4]),
+                  avoid_edges=(kind in ("safe", "longline") and rng.random() < 0.7))
+        for frac in (0.1, 0.5, 0.9):
+            c = dict(cw)
+            c["frac"] = frac
+            c["t"], c["after"] = U.window_of(layout_of(c), frac)
+            wcases.append(c)
+    # the example of C17_windowed_example and a window at the very first / very last message
+    wcases.append(dict(kind="lag_family", bs=64, container="plain", base=[(70, True)] * 100, mult=2, frac=0.5))
+    wcases.append(dict(kind="short", bs=64, container="plain", base=gen_base(rng, "short", 64, 120), mult=1, frac=0.0))
+    wcases.append(dict(kind="short", bs=256, container="plain", base=gen_base(rng, "short", 256, 120), mult=1, frac=1.0))
+    for c in wcases[-3:]:
+        c["t"], c["after"] = U.window_of(layout_of(c), c["frac"])
+    wmodel, err = model_rows_w(wcases, H, os.path.join(CACHE, "cases", "C17", "W"))
+    if wmodel is None:
+        ctx.obligation_broken("correspondence", "model evaluation of the windowed cases (coqc, Corr.C17.rows_w)", err)
+        wmodel, wcases = [], []
+    for c, m in zip(wcases, wmodel):
+        lay = layout_of(c)
+        s_lo = U.sim_cur_w(lay, c["bs"], 1, c["t"])
+        s_hi = U.sim_cur_w(lay, c["bs"], H, c["t"])
+        if s_lo != tuple(m["lo"]) + (m["derr_lo"], m["dlerr_lo"]) or s_hi != tuple(m["hi"]) + (m["derr_hi"], m["dlerr_hi"]):
+            ctx.obligation_broken("correspondence", "python transliteration c17_util.WindowSim vs Coq Model.RetainSearch (used for the large files of run C)",
+                                  json.dumps(dict(kind=c["kind"], bs=c["bs"], t=c["t"], sim_lo=s_lo, sim_hi=s_hi, coq=m)))
+            break
+
+    def b4(ic):
+        i, c = ic
+        m = wmodel[i]
+        s = run_bin(root, c, "lagfree", 500000 + i, slow_us=250, after=c["after"])
+        if s is not None and s["drop_sysline_err"] != m["derr_lo"]:
+            s = run_bin(root, c, "lagfree", 520000 + i, slow_us=2500, after=c["after"])
+        return s
+
+    def b4free(ic):
+        i, c = ic
+        pl = plans[i % len(plans)]
+        if pl is None:
+            return run_bin(root, c, "free", 540000 + i, after=c["after"]), None
+        pl = pl % (ctx.seed + i)
+        return run_bin(root, c, "plan", 540000 + i, plan=pl, after=c["after"]), pl
+
+    with ThreadPoolExecutor(max_workers=vlib.NCPU) as ex:
+        r4 = list(ex.map(b4, enumerate(wcases)))
+    with ThreadPoolExecutor(max_workers=vlib.NCPU) as ex:
+        r4f = list(ex.map(b4free, enumerate(wcases)))
+    b4_cmp = b4_dis = b4_lagged = b4f_cmp = b4f_dis = 0
+    for c, m, s in zip(wcases, wmodel, r4):
+        desc = dict(kind=c["kind"], bs=c["bs"], mult=c["mult"], after=c["after"], t=c["t"], frac=c["frac"], base_lines=len(c["base"]),
+                    avoid_edges=c.get("avoid_edges", False), base=c["base"] if len(c["base"]) <= 120 else c["base"][:120] + ["..."])
+        if s is None:
+            ctx.obligation_broken("correspondence", "s4 --summary could not be parsed / run failed (windowed lag-free run)", json.dumps(desc))
+            continue
+        if s["printed_syslines"] != m["messages"] - c["t"]:
+            ctx.obligation_broken("correspondence", "windowed run: messages printed vs messages at or after the window start",
+                                  json.dumps(dict(case=desc, printed=s["printed_syslines"], expected=m["messages"] - c["t"])))
+            continue
+        if s["drop_sysline_err"] != m["derr_lo"]:
+            b4_lagged += 1          # the consumer did not keep up (more failed releases than the caches alone explain)
+            continue
+        b4_cmp += 1
+        got = tuple(s[k] for k in MARKS) + (s["drop_line_err"],)
+        want = tuple(m["lo"]) + (m["dlerr_lo"],)
+        if got != want:
+            b4_dis += 1
+            if b4_dis <= 3:
+                ctx.obligation_broken("correspondence", "--summary blocks/lines/syslines high + drop_line Err of a WINDOWED run (consumer keeps up) vs Model.RetainSearch P_cur",
+                                      json.dumps(dict(case=desc, impl=got, model=want, summary=s)))
+    if wcases and b4_lagged > max(3, len(wcases) // 4):
+        ctx.obligation_broken("correspondence", "could not force the lag-free schedule in the windowed runs (%d of %d)" % (b4_lagged, len(wcases)), "")
+    with ProcessPoolExecutor(max_workers=vlib.NCPU) as ex:
+        w4_brackets = list(ex.map(_simw_job, [(c, H) for c in wcases], chunksize=2))
+    for c, m, (s, pl), (blo, bhi) in zip(wcases, wmodel, r4f, w4_brackets):
+        if s is None or s["printed_syslines"] != m["messages"] - c["t"]:
+            continue
+        b4f_cmp += 1
+        got = tuple(s[k] for k in MARKS)
+        sl = w_slack(layout_of(c), c["bs"])
+        if not all(lo - d <= g <= hi + d for lo, g, hi, d in zip(blo, got, bhi, sl)):
+            b4f_dis += 1
+            if b4f_dis <= 3:
+                ctx.obligation_broken("correspondence", "--summary marks of a WINDOWED run (free schedule) outside the bracket of the model over the consumer lags 1..cap+2",
+                                      json.dumps(dict(kind=c["kind"], bs=c["bs"], mult=c["mult"], after=c["after"], plan=pl,
+                                                      impl=got, model_min=blo, model_max=bhi, slack=sl, drop_sysline_err=s["drop_sysline_err"])))
+
+    mark_phase("B4 windowed")
     # ---------------------------------------------------------------- C: growth search
     mults = [1, 4, 16, 64] if quick else [1, 4, 16, 64, 256]
     configs = []
@@ -390,16 +585,18 @@ def run(ctx):
         return run_bin(root, c, "free", 400000 + ci * 1000 + mu)
 
     jobs_sorted = sorted(range(len(jobs)), key=lambda k: -len(jobs[k][2]["base"]) * jobs[k][1])
-    with ThreadPoolExecutor(max_workers=vlib.NCPU) as ex:
-        res_sorted = list(ex.map(lambda k: cjob(jobs[k]), jobs_sorted))
+    # the model's prediction (current policy; python transliteration cross-checked against Coq in B) for every C run,
+    # computed while the binary runs
+    with ProcessPoolExecutor(max_workers=max(2, vlib.NCPU // 2)) as pex:
+        sim_futs = [pex.submit(_sim_job, (jobs[k][2], H)) for k in jobs_sorted]
+        with ThreadPoolExecutor(max_workers=max(2, vlib.NCPU // 2)) as ex:
+            res_sorted = list(ex.map(lambda k: cjob(jobs[k]), jobs_sorted))
+        sims_sorted = [f.result() for f in sim_futs]
     cres = [None] * len(jobs)
-    for k, r in zip(jobs_sorted, res_sorted):
+    sims_all = [None] * len(jobs)
+    for k, r, sm in zip(jobs_sorted, res_sorted, sims_sorted):
         cres[k] = r
-
-    # the model's prediction (current policy; python transliteration cross-checked against Coq in B) for every C run
-    sim_jobs = [(jobs[k][2], H) for k in range(len(jobs))]
-    with ProcessPoolExecutor(max_workers=vlib.NCPU) as ex:
-        sims_all = list(ex.map(_sim_job, sim_jobs, chunksize=4))
+        sims_all[k] = sm
 
     c_growing = c_flat = c_rejected = 0
     c_safe_flat = c_safe_total = 0
@@ -470,10 +667,122 @@ def run(ctx):
             if dom == "outside_known_classes":
                 c_safe_flat += 1
 
+
+    mark_phase("C")
+    # ---------------------------------------------------------------- C, windowed: growth under a window (plain files)
+    wconfigs = []
+    wck = ["safe", "short", "safe", "multi", "edgey", "long", "longline", "safe", "aligned"]
+    for i in range(6 if quick else 18):
+        kind = wck[i % len(wck)]
+        if kind == "safe":
+            bs = rng.choice([4096, 8192, 16384])
+        elif kind == "long":
+            bs = rng.choice([64, 128, 256])
+        elif kind == "longline":
+            bs = rng.choice([1024, 4096])
+        else:
+            bs = rng.choice([64, 512, 1024, 4096])
+        avg = dict(short=55, multi=100, long=1.6 * bs, edgey=max(60, bs // 3), safe=max(30, min(400, bs // 16)) * 0.65,
+                   longline=110, aligned=75)[kind]
+        nm = int(max(24, min(6 * bs / avg, 1200 if quick else 2500)))
+        wconfigs.append(dict(kind=kind, bs=bs, container="plain", base=gen_base(rng, kind, bs, nm),
+                             avoid_edges=(kind in ("safe", "longline"))))
+    wjobs = []
+    for ci, cf in enumerate(wconfigs):
+        for frac in (0.1, 0.5, 0.9):
+            for mu in mults:
+                c = dict(cf)
+                c["mult"] = mu
+                c["frac"] = frac
+                c["t"], c["after"] = U.window_of(layout_of(c), frac)
+                wjobs.append((ci, frac, mu, c))
+    wj_sorted = sorted(range(len(wjobs)), key=lambda k: -len(wjobs[k][3]["base"]) * wjobs[k][2])
+    with ProcessPoolExecutor(max_workers=max(2, vlib.NCPU // 2)) as pex:
+        wsim_futs = [pex.submit(_simw_job, (wjobs[k][3], H)) for k in wj_sorted]
+        with ThreadPoolExecutor(max_workers=max(2, vlib.NCPU // 2)) as ex:
+            wres_sorted = list(ex.map(lambda k: run_bin(root, wjobs[k][3], "free", 600000 + k, after=wjobs[k][3]["after"]), wj_sorted))
+        wsims_sorted = [f.result() for f in wsim_futs]
+    wres = [None] * len(wjobs)
+    wsims_all = [None] * len(wjobs)
+    for k, r, sm in zip(wj_sorted, wres_sorted, wsims_sorted):
+        wres[k] = r
+        wsims_all[k] = sm
+    cw_growing = cw_flat = cw_rejected = cw_interval_cmp = cw_interval_bad = 0
+    cw_safe_flat = cw_safe_total = 0
+    cw_log_samples = []
+    for ci, cf in enumerate(wconfigs):
+        for frac in (0.1, 0.5, 0.9):
+            ks = [k for k, j in enumerate(wjobs) if j[0] == ci and j[1] == frac]
+            rs = [wres[k] for k in ks]
+            sims = [wsims_all[k] for k in ks]
+            cs = [wjobs[k][3] for k in ks]
+            desc0 = dict(kind=cf["kind"], bs=cf["bs"], container="plain", notation="iso", avoid_edges=cf.get("avoid_edges", False),
+                         after_frac=frac)
+            if any(r is None for r in rs) or any(r["printed_syslines"] != r["messages"] - c["t"] for r, c in zip(rs, cs)):
+                if any(r is None or r["rc"] not in (0,) for r in rs):
+                    ctx.failure(dict(desc0, base=cf["base"][:200], mults=mults), "a windowed run that ends with a summary", "run failed / hang", [])
+                else:
+                    ctx.obligation_broken("correspondence", "windowed run (search C): messages printed vs messages at or after the window start",
+                                          json.dumps(dict(desc0, printed=[r["printed_syslines"] for r in rs], expected=[r["messages"] - c["t"] for r, c in zip(rs, cs)])))
+                cw_rejected += 1
+                continue
+            big = layout_of(cs[-1])
+            in_lag = U.consumer_lag_exceeds_drop_distance(big, cf["bs"], H)
+            in_edge = U.line_ends_on_block_edge(big, cf["bs"], "plain")
+            if not (in_lag or in_edge):
+                cw_safe_total += 1
+            for mu, r, (lo, hi), cc in zip(mults, rs, sims, cs):
+                cw_interval_cmp += 1
+                got = tuple(r[k] for k in MARKS)
+                sl = w_slack(layout_of(cc), cf["bs"])
+                if not all(a - d <= g <= b + d for a, g, b, d in zip(lo[:3], got, hi[:3], sl)):
+                    cw_interval_bad += 1
+                    if cw_interval_bad <= 3:
+                        ctx.obligation_broken("correspondence", "--summary marks of a WINDOWED run (search C) outside the bracket of the model over the consumer lags 1..cap+2",
+                                              json.dumps(dict(desc0, mult=mu, impl=got, model_min=lo[:3], model_max=hi[:3], slack=sl)))
+            anyg = False
+            msp = U.msg_spans(big, cf["bs"])
+            span = max(b - a + 1 for a, b in msp)
+            ml = max(z - a + 1 for a, z in U.messages(big))
+            units = dict(blocks_high=2 * span + 1, lines_high=ml + 1, syslines_high=1)
+            for mi, mk in enumerate(MARKS):
+                vals = [r[mk] for r in rs]
+                if grows_w(vals, units[mk]):
+                    anyg = True
+                    classes = []
+                    if all(r[mk] <= hi[mi] for r, (lo, hi) in zip(rs, sims)):
+                        if mk == "lines_high" and in_lag:
+                            classes.append("consumer_lag_exceeds_drop_distance")
+                        if mk == "blocks_high":
+                            if in_edge:
+                                classes.append("line_ends_on_block_edge")
+                            if in_lag:
+                                classes.append("consumer_lag_exceeds_drop_distance")
+                    case = dict(desc0, mults=mults, mark=mk, base=cf["base"], prefix=prefix_of(cf), unit=units[mk],
+                                model_maxlag=[hi[mi] for (lo, hi) in sims],
+                                drop_sysline_err=[r["drop_sysline_err"] for r in rs], sizes_messages=[r["messages"] for r in rs])
+                    ctx.failure(case, "%s under a window grows at most with the logarithm of the file size" % mk,
+                                "grows linearly: %s at sizes x%s (-a at %d %% of the file)" % (vals, mults, int(frac * 100)), classes)
+                    if len(growth_samples) < 12:
+                        growth_samples.append(dict(desc0, mark=mk, values=vals, classes=classes))
+            if anyg:
+                cw_growing += 1
+            else:
+                cw_flat += 1
+                if not (in_lag or in_edge):
+                    cw_safe_flat += 1
+                    if len(cw_log_samples) < 4:
+                        cw_log_samples.append(dict(desc0, blocks_high=[r["blocks_high"] for r in rs], lines_high=[r["lines_high"] for r in rs],
+                                                   syslines_high=[r["syslines_high"] for r in rs], sizes_messages=[r["messages"] for r in rs]))
+
+    mark_phase("C windowed")
     # ---------------------------------------------------------------- evidence
-    allruns = [r for r in r1 if r] + [r for r, _ in r2 if r] + [r for r in r3 if r] + [r for r in cres if r]
+    allruns = [r for r in r1 if r] + [r for r, _ in r2 if r] + [r for r in r3 if r] + [r for r in cres if r] + \
+        [r for r in r4 if r] + [r for r, _ in r4f if r] + [r for r in wres if r]
     distinct = len(set((case_id(c), "lf") for c in bcases)) + len(set((case_id(c), "free") for c in bcases)) + \
-        len(set(case_id(j[2]) for j in jobs))
+        len(set(case_id(j[2]) for j in jobs)) + \
+        len(set((case_id(c), c["frac"], "wlf") for c in wcases)) + len(set((case_id(c), c["frac"], "wfree") for c in wcases)) + \
+        len(set((case_id(j[3]), j[1]) for j in wjobs))
     hist_c = {}
     for c in bcases + [j[2] for j in jobs]:
         k = "%s/%s" % (c["container"], c["kind"])
@@ -484,12 +793,12 @@ def run(ctx):
     spans = [m["span"] for m in model]
     ctx.coverage.update(
         evaluations=len(allruns), distinct_nontrivial=distinct,
-        rule="runs of the hooked s4 binary with --summary on generated logs (3 short dated lines + a random base layout repeated x1..x%d): kinds short / multi-line messages / messages spanning several blocks / lines placed on block edges / block large relative to the lines with edges avoided; containers %s; block sizes 64..65536; B1 = H1 send delay (consumer keeps up), B2/C = free or planned consumer delays; every case is multi-block and streams through drop_data_try, so all are non-trivial; distinct by (layout, block size, container, repetition, mode)" % (mults[-1], "/".join(containers)),
+        rule="runs of the hooked s4 binary with --summary (and, for the windowed runs B4/Cw, -a at 10/50/90 %% of the file) on generated logs (3 short dated lines + a random base layout repeated x1..x%d): kinds short / multi-line messages / messages spanning several blocks / lines placed on block edges / block large relative to the lines with edges avoided; containers %s; block sizes 64..65536; B1 = H1 send delay (consumer keeps up), B2/C = free or planned consumer delays; every case is multi-block and streams through drop_data_try, so all are non-trivial; distinct by (layout, block size, container, repetition, mode)" % (mults[-1], "/".join(containers)),
         samples=[dict(kind=c["kind"], bs=c["bs"], container=c["container"], mult=c["mult"], messages=m["messages"],
                       impl_lagfree=[s[k] for k in MARKS] if s else None, model_nolag=m["lo"], model_maxlag=m["hi"],
                       impl_free=[s2[k] for k in MARKS] if s2 else None)
                  for c, m, s, (s2, _p) in list(zip(bcases, model, r1, r2))[:3] + list(zip(bcases, model, r1, r2))[-4:-2]],
-        channel_capacity=cap, H=H,
+        channel_capacity=cap, H=H, window_constants_scraped=list(wc),
         B1_exact_compared=b1_cmp, B1_disagreements=b1_dis, B1_rejected_by_blockzero_gate=b1_rejected, B1_not_lagfree=b1_lagged,
         B2_interval_compared=b2_cmp, B2_outside_interval=b2_dis, B2_strictly_above_nolag=b2_strict_inside,
         traces_validated_against_impl=b1_cmp + b2_cmp,
@@ -497,7 +806,16 @@ def run(ctx):
         C_configs=len(configs), C_sizes=mults, C_growing=c_growing, C_flat=c_flat, C_rejected=c_rejected,
         C_domain_histogram=domain_hist, C_outside_known_classes_flat="%d of %d" % (c_safe_flat, c_safe_total),
         C_growth_samples=growth_samples, C_interval_compared=c_interval_cmp, C_outside_interval=c_interval_bad,
-        B3_yearless_compared=b3_cmp,
+        B3_yearless_compared=b3_cmp, phase_seconds=phase,
+        B4_windowed_exact_compared=b4_cmp, B4_windowed_disagreements=b4_dis, B4_windowed_not_lagfree=b4_lagged,
+        B4_windowed_interval_compared=b4f_cmp, B4_windowed_outside_interval=b4f_dis,
+        B4_windowed_samples=[dict(kind=c["kind"], bs=c["bs"], mult=c["mult"], after=c["after"], t=c["t"], messages=m["messages"],
+                                  impl_lagfree=[s[k] for k in MARKS] + [s["drop_sysline_err"], s["drop_line_err"]] if s else None,
+                                  model_nolag=list(m["lo"]) + [m["derr_lo"], m["dlerr_lo"]], model_maxlag=list(m["hi"]))
+                             for c, m, s in list(zip(wcases, wmodel, r4))[:4]],
+        Cw_configs=len(wconfigs), Cw_window_positions=[0.1, 0.5, 0.9], Cw_growing=cw_growing, Cw_flat=cw_flat, Cw_rejected=cw_rejected,
+        Cw_outside_known_classes_flat="%d of %d" % (cw_safe_flat, cw_safe_total), Cw_interval_compared=cw_interval_cmp,
+        Cw_outside_interval=cw_interval_bad, Cw_logarithmic_samples=cw_log_samples,
         notation_histogram=dict((nt, sum(1 for c in bcases + ycases + [j[2] for j in jobs] if c.get("notation", "iso") == nt)) for nt in U.NOTATIONS),
         container_kind_histogram=hist_c, blocksize_histogram=hist_bs,
         largest_file_messages=max([r["messages"] for r in allruns] or [0]),
@@ -506,8 +824,8 @@ def run(ctx):
         "the property is phrased on the --summary marks (entries of BlockReader.blocks / LineReader.lines / SyslineReader.syslines); real heap use, the allocator, and the index maps that are never pruned (syslines_by_range, foend_to_fobeg, blocks_read) are not measured",
         "hook H1 (S4_VERIF_PLAN slow=) makes the consumer keep up; a run counts as lag-free only if the summary reports drop_sysline Err 0",
         "Model/Retain.v is a hand transcription of exec_syslogprocessor / drop_data_try / drop_data / drop_sysline / drop_line / drop_block and of the streamed look-behind drop; tied only by run B",
-        "the search phase of windowed runs (binary search on plain files) is outside the model and the search",
-        "C17_retry_bounded_partial is stated for well-formed message sequences; wfb is evaluated on every generated layout instead of a proof for all layouts"]
+        "windowed runs: the block-zero analysis is represented by its residue (1 line + 1 message, or 3 lines + 2 messages from 8096-byte blocks on) for files whose first lines lie inside block zero; message k is stamped with the instant k; only -a (no -b) windows on plain files are generated",
+        "wfb is still evaluated on every generated layout (now a cross-check of C17_layout_msgs_wf, which proves it for all layouts)"]
     shutil.rmtree(root, ignore_errors=True)
     return ctx.finish()
 
@@ -532,12 +850,20 @@ def replay(ctx, path):
         for k, mu in enumerate(c["mults"]):
             cc = dict(bs=c["bs"], container=c["container"], base=base, mult=mu, avoid_edges=c.get("avoid_edges", False),
                       prefix=c.get("prefix", PREFIX), notation=nt)
-            s = run_bin(root, cc, "free", 900000 + k)
+            frac = c.get("after_frac")
+            if frac is not None:
+                tw, after = U.window_of(layout_of(cc), frac)
+                s = run_bin(root, cc, "free", 900000 + k, after=after)
+            else:
+                s = run_bin(root, cc, "free", 900000 + k)
             vals.append(s[mk] if s else None)
             if s and nt != "yearless":
-                hi = U.sim_cur(layout_of(cc), c["bs"], c["container"] != "plain", H)
+                if frac is not None:
+                    hi = _simw_job((dict(cc, t=tw), H))[1]
+                else:
+                    hi = U.sim_cur(layout_of(cc), c["bs"], c["container"] != "plain", H)
                 explained = explained and s[mk] <= hi[mi]
-        g = None not in vals and grows(vals)
+        g = None not in vals and (grows_w(vals, c.get("unit", 1)) if c.get("after_frac") is not None else grows(vals))
         lay = layout_of(dict(bs=c["bs"], container=c["container"], base=base, mult=c["mults"][-1], avoid_edges=c.get("avoid_edges", False),
                              prefix=c.get("prefix", PREFIX)))
         classes = []
@@ -549,8 +875,9 @@ def replay(ctx, path):
             if U.line_ends_on_block_edge(lay, c["bs"], c["container"]) and mk == "blocks_high":
                 classes.append("line_ends_on_block_edge")
         covered = bool(set(classes) & known)
-        print("replay %s bs=%d %s %s mark=%s sizes x%s -> %s  grows=%s within-model-of-known-findings=%s classes=%s (recorded: %s)"
-              % (c["kind"], c["bs"], c["container"], nt, mk, c["mults"], vals, g, explained, classes, f["got"]))
+        print("replay %s bs=%d %s %s%s mark=%s sizes x%s -> %s  grows=%s within-model-of-known-findings=%s classes=%s (recorded: %s)"
+              % (c["kind"], c["bs"], c["container"], nt, (" -a at %d%%" % int(c["after_frac"] * 100)) if c.get("after_frac") is not None else "",
+                 mk, c["mults"], vals, g, explained, classes, f["got"]))
         if g and not covered:
             print("VIOLATION property=C17 replay=%s" % path)
             rc = 1
